@@ -200,5 +200,7 @@ def run(ctx):
     from . import ias15
     ias15.rule_closing_series(ctx, 'R01.5')
     ias15.rule_predictor(ctx, 'R01.5')
+    from . import sei
+    sei.rule_exact(ctx, 'R01.8')          # SEI: the unperturbed operator is the exact flow of Hill's equations
     ctx.not_decided.append('the order of accuracy beyond first-order consistency and symmetry; adaptive step control (IAS15, BS, TRACE accept/reject); '
                            'user ODE coupling; error constants')
